@@ -132,8 +132,52 @@ pub const NUMERIC_VALUE_QUERY: EnumInfo = {
     }
 };
 
+/// field-less enums with explicit discriminants that differ from the declaration position (register codes, wire values)
+#[derive(Copy, Clone, PartialEq, Debug, scpi_derive::ScpiEnum)]
+pub enum Level {
+    #[scpi(mnemonic = b"LOW")]
+    Low = 1,
+    #[scpi(mnemonic = b"MEDium")]
+    Medium = 2,
+    #[scpi(mnemonic = b"HIGH")]
+    High = 4,
+    #[scpi(mnemonic = b"OFF")]
+    Off = 0,
+}
+#[derive(Copy, Clone, PartialEq, Debug, scpi_derive::ScpiEnum)]
+pub enum Polarity {
+    #[scpi(mnemonic = b"NEGative")]
+    Negative = -1,
+    #[scpi(mnemonic = b"POSitive")]
+    Positive = 1,
+    #[scpi(mnemonic = b"EITHer")]
+    Either = 100,
+}
+macro_rules! hand_info {
+    ($cname:ident, $t:ident, [$($v:ident = $mn:literal),+]) => {
+        pub const $cname: EnumInfo = {
+            const ALL: &[$t] = &[$($t::$v),+];
+            fn idx(x: &$t) -> usize { ALL.iter().position(|v| v == x).unwrap() }
+            EnumInfo {
+                name: stringify!($t),
+                mnemonics: &[$($mn as &[u8]),+],
+                field: &[$({ let _ = $mn; false }),+],
+                from_mnemonic: |s| $t::from_mnemonic(s).map(|v| idx(&v)),
+                mnemonic_of: |i| ALL[i].mnemonic(),
+                short_form_of: |i| ALL[i].short_form(),
+                try_from_token: |t| $t::try_from(t).map(|v| idx(&v)),
+                format: |i| { let mut out: Vec<u8> = Vec::new(); ALL[i].format_response_data(&mut out)?; Ok(out) },
+            }
+        };
+    };
+}
+hand_info!(LEVEL_INFO, Level, [Low = b"LOW", Medium = b"MEDium", High = b"HIGH", Off = b"OFF"]);
+hand_info!(POLARITY_INFO, Polarity, [Negative = b"NEGative", Positive = b"POSitive", Either = b"EITHer"]);
+
 pub static REALISTIC: &[EnumInfo] = &[
     NUMERIC_VALUE_QUERY,
+    LEVEL_INFO,
+    POLARITY_INFO,
     OnOff::INFO, AutoOnOff::INFO, OffOnOnce::INFO, MinMaxDef::INFO, UpDown::INFO, InfNinfNan::INFO, TrigSource::INFO, Slope::INFO, DataFormat::INFO, ByteOrder::INFO, Coupling::INFO,
     Function::INFO, Channel::INFO, ChannelWide::INFO, TrueFalse::INFO, YesNo::INFO, ZeroOne::INFO, LowHigh::INFO, NoneAll::INFO, Unit::INFO, Single::INFO, Windows::INFO, StateE::INFO,
 ];
